@@ -79,7 +79,14 @@ func runElps(args []string, stdout io.Writer) error {
 
 	env := lisp.NewEnv(nil)
 	env.Runtime.Reader = parser.NewReader()
-	env.Runtime.Library = &lisp.FSLibrary{FS: os.DirFS(rootDir)}
+	// os.DirFS follows symbolic links out of the directory; os.Root does not,
+	// which is what "file access is confined to the root directory" promises.
+	root, err := os.OpenRoot(rootDir)
+	if err != nil {
+		return fmt.Errorf("cannot open root directory: %w", err)
+	}
+	defer root.Close() //nolint:errcheck
+	env.Runtime.Library = &lisp.FSLibrary{FS: root.FS()}
 	for _, rc := range []*lisp.LVal{
 		lisp.InitializeUserEnv(env),
 		lisplib.LoadLibrary(env),
